@@ -487,7 +487,7 @@ impl Check for C06 {
         "C06"
     }
     fn level(&self) -> &'static str {
-        "schedule_sim"
+        "exploration"
     }
     fn technique(&self) -> &'static str {
         "seeded simulation of subscriber/producer interleavings on the real router: guarded async scheduling points inside the session and task emitters (before record, between record and publish) and inside the three stream handlers (between subscribe and snapshot) are owned by the simulator, which holds the producer or a subscriber at a seeded visit while the other side runs, plus random short holds at every point; subscribers attach before, at the held point, during and after; oracle = received (seq,id) list equals the stream in the log"
